@@ -59,6 +59,21 @@ Theorem C18_cursor_scanner : forall ts s h s' tr, addr_ok ts -> sc_rep s -> sc_r
 Proof. exact sc_cursor_thm. Qed.
 Print Assumptions C18_cursor_scanner.
 
+(* The request of a probe: an FDL status request (no SAPs, FC = request, FCB/FCV inactive)
+   resp. a Slave_Diag request (DSAP 60, SSAP 62, SRD low, first FCB) from TS to the cursor
+   address, exactly the PROFIBUS frame of that header, awaiting a reply from that address. *)
+Theorem C18_request : forall ts s, addr_ok ts -> ll_rep s -> ll_done s = false ->
+  ll_transmit ts s =
+  Ok (s, Some (mkTx (ll_request ts (ll_cursor s)) (frame_spec (ll_request ts (ll_cursor s)) []) (Some (ll_cursor s)))).
+Proof. exact ll_request_thm. Qed.
+Print Assumptions C18_request.
+
+Theorem C18_request_scanner : forall ts s, addr_ok ts -> sc_rep s -> sc_done s = false ->
+  sc_transmit ts s =
+  Ok (s, Some (mkTx (sc_request ts (sc_cursor s)) (frame_spec (sc_request ts (sc_cursor s)) []) (Some (sc_cursor s)))).
+Proof. exact sc_request_thm. Qed.
+Print Assumptions C18_request_scanner.
+
 (* What cursor_walk means: the probed addresses are c, c+1, c+2, ... modulo 126. *)
 Theorem C18_cursor_meaning : forall (P : Type) (tr : list (apoll P)) c dn,
   0 <= c <= 125 -> cursor_walk c dn tr = true ->
